@@ -37,6 +37,7 @@ SHAPES = {
     "q2|m3,c2": (("q",), (2,), ("m", "c"), (3, 2)),
     "q2,b2|m2,c2": (("q", "b"), (2, 2), ("m", "c"), (2, 2)),
     "q150|m2": (("q",), (150,), ("m",), (2,)),  # more than 128 feasible restricted-state combinations
+    "q17,b16|m2": (("q", "b"), (17, 16), ("m",), (2,)),  # more than 256 combinations of TWO restricted states
     "q2|": (("q",), (2,), (), ()),
     "q2,b3|": (("q", "b"), (2, 3), (), ()),
 }
